@@ -75,4 +75,321 @@ theorem word_test : ∀ b : UInt8, wordCls.test b = isWord b :=
 
 theorem anyNotNL_test (b : UInt8) : Cls.anyNotNL.test b = (b != LF) := rfl
 
+theorem digit_fun : digitCls.test = isDigit := funext digit_test
+theorem space_fun : spaceCls.test = (fun b => b == SP) := funext space_test
+theorem notAt_fun : notAtCls.test = (fun b => b != AT) := funext notAt_test
+theorem word_fun : wordCls.test = isWord := funext word_test
+
+/-! ## the line pattern, stage by stage (from the right) -/
+
+/-- `(.*)?$` -/
+def restRe : Re := .seq (.quest (.cap 4 (.star .anyNotNL))) .eol
+/-- ` ?(.*)?$` -/
+def tailRe : Re := .seq (.quest (.lit [32])) restRe
+/-- `(\w+) ?(.*)?$` -/
+def tagRe : Re := .seq (.cap 3 (.plus wordCls)) tailRe
+/-- `(@[^@]+@ )` -/
+def ptrGroup : Re := .cap 2 (.seq (.lit [64]) (.seq (.plus notAtCls) (.lit [64, 32])))
+/-- `(@[^@]+@ )?(\w+) ?(.*)?$` -/
+def afterSpaces : Re := .seq (.quest ptrGroup) tagRe
+/-- ` +(@[^@]+@ )?(\w+) ?(.*)?$` -/
+def spacesRe : Re := .seq (.plus spaceCls) afterSpaces
+/-- `(\d+) +(@[^@]+@ )?(\w+) ?(.*)?$` — the pattern of decoder.go after its leading `^` -/
+def expected : Re := .seq (.cap 1 (.plus digitCls)) spacesRe
+
+/-- the final continuation of `find` -/
+def kf : Str → Str → Caps → Option Caps := fun _ _ c => some c
+
+theorem takeWhile_all (p : UInt8 → Bool) : ∀ s : Str, (∀ b ∈ s, p b = true) → s.takeWhile p = s
+  | [], _ => rfl
+  | b :: r, h => by
+    have hb := h b (by simp)
+    simp only [List.takeWhile_cons, hb, ↓reduceIte]
+    rw [takeWhile_all p r (fun x hx => h x (by simp [hx]))]
+
+theorem dropWhile_all (p : UInt8 → Bool) : ∀ s : Str, (∀ b ∈ s, p b = true) → s.dropWhile p = []
+  | [], _ => rfl
+  | b :: r, h => by
+    have hb := h b (by simp)
+    simp only [List.dropWhile_cons, hb, ↓reduceIte]
+    exact dropWhile_all p r (fun x hx => h x (by simp [hx]))
+
+theorem noLF_all (s : Str) (h : LF ∉ s) : ∀ b ∈ s, Cls.anyNotNL.test b = true := by
+  intro b hb
+  simp only [Cls.test, bne_iff_ne, ne_eq]
+  intro e; subst e; exact h hb
+
+theorem rest_run (acc s : Str) (c : Caps) (h : LF ∉ s) :
+    run restRe acc s c kf = some (c.set 4 s) := by
+  simp only [restRe, run]
+  rw [starG_first Cls.anyNotNL.test _ s [] (c.set 4 s)]
+  rw [takeWhile_all _ s (noLF_all s h), dropWhile_all _ s (noLF_all s h)]
+  simp [kf]
+
+theorem tail_run (acc s : Str) (c : Caps) (h : LF ∉ s) :
+    run tailRe acc s c kf = some (c.set 4 (afterTag s)) := by
+  cases s with
+  | nil =>
+    simp only [tailRe, run, litG]
+    rw [rest_run acc [] c h]; rfl
+  | cons b r =>
+    have hr : LF ∉ r := fun hm => h (by simp [hm])
+    by_cases hb : b = SP
+    · subst hb
+      simp only [tailRe, run, litG, afterTag]
+      have : SP.toNat = 32 := rfl
+      simp only [this, ↓reduceIte]
+      rw [rest_run _ r c hr]
+      simp
+    · have hne : ¬ b.toNat = 32 := fun e => hb (UInt8.toNat_inj.mp (by simpa [SP] using e))
+      simp only [tailRe, run, litG, hne, ↓reduceIte, afterTag]
+      rw [rest_run acc (b :: r) c h]
+      have : (b == SP) = false := by simpa using hb
+      simp [this]
+
+/-- what the tag stage yields -/
+def tagRes (c : Caps) (r : Str) : Option Caps :=
+  if r.takeWhile isWord = [] then none
+  else some ((c.set 3 (r.takeWhile isWord)).set 4 (afterTag (r.dropWhile isWord)))
+
+theorem noLF_dropWhile (p : UInt8 → Bool) (s : Str) (h : LF ∉ s) : LF ∉ s.dropWhile p :=
+  fun hm => h ((List.dropWhile_sublist p).subset hm)
+
+theorem tag_run (acc r : Str) (c : Caps) (h : LF ∉ r) :
+    run tagRe acc r c kf = tagRes c r := by
+  cases r with
+  | nil => simp [tagRe, run, tagRes]
+  | cons b r' =>
+    have hr : LF ∉ r' := fun hm => h (by simp [hm])
+    simp only [tagRe, run, word_fun, tagRes, List.takeWhile_cons, List.dropWhile_cons]
+    by_cases hb : isWord b = true
+    · simp only [hb, ↓reduceIte]
+      rw [starG_first isWord _ r' [b]
+        ((c.set 3 (b :: r'.takeWhile isWord)).set 4 (afterTag (r'.dropWhile isWord)))]
+      · simp
+      · show run tailRe _ _ _ kf = _
+        rw [tail_run _ _ _ (noLF_dropWhile isWord r' hr)]
+        simp
+    · simp [hb]
+
+theorem tagRes_notWord (c : Caps) (b : UInt8) (r : Str) (hb : isWord b = false) :
+    tagRes c (b :: r) = none := by
+  simp [tagRes, List.takeWhile_cons, hb]
+
+/-- what the optional pointer group followed by the tag stage yields -/
+def ptrRes (c : Caps) (r2 : Str) : Option Caps :=
+  match parsePtr r2 with
+  | none => none
+  | some (ptr, r) => tagRes (if ptr = [] then c else c.set 2 (AT :: ptr ++ [AT, SP])) r
+
+theorem isWord_AT : isWord AT = false := by decide
+theorem isWord_SP : isWord SP = false := by decide
+
+theorem litG_at_none (acc : Str) (b : UInt8) (r : Str) (hb : (b != AT) = true) :
+    litG [64, 32] acc (b :: r) = none := by
+  have : ¬ b.toNat = 64 := fun e => by
+    have : b = AT := UInt8.toNat_inj.mp (by simpa [AT] using e)
+    simp [this] at hb
+  simp [litG, this]
+
+theorem ptr_run (acc r2 : Str) (c : Caps) (h : LF ∉ r2) :
+    run afterSpaces acc r2 c kf = ptrRes c r2 := by
+  cases r2 with
+  | nil =>
+    simp only [afterSpaces, ptrGroup, run, litG, ptrRes, parsePtr]
+    rw [tag_run acc [] c h]; simp
+  | cons c0 r3 =>
+    have h3 : LF ∉ r3 := fun hm => h (by simp [hm])
+    by_cases h0 : c0 = AT
+    · subst h0
+      have hAT : AT.toNat = 64 := rfl
+      have fallback : run tagRe acc (AT :: r3) c kf = none := by
+        rw [tag_run acc _ c h, tagRes_notWord c AT r3 isWord_AT]
+      cases r3 with
+      | nil =>
+        simp only [afterSpaces, ptrGroup, run, litG, hAT, ↓reduceIte]
+        rw [fallback]
+        simp [ptrRes, parsePtr]
+      | cons d r4 =>
+        have h4 : LF ∉ r4 := fun hm => h3 (by simp [hm])
+        by_cases hd : (d != AT) = true
+        · -- `[^@]+` runs to the next `@`; the literal `@ ` must follow
+          simp only [afterSpaces, ptrGroup, run, litG, hAT, ↓reduceIte, notAt_fun, hd]
+          rw [starG_max (fun b => b != AT) _ (fun acc' b r hb => by
+            simp only [litG_at_none acc' b r hb]) r4 [d, AT]]
+          rw [fallback]
+          have hp : ((d :: r4).takeWhile (· != AT)) = d :: r4.takeWhile (· != AT) := by
+            simp [List.takeWhile_cons, hd]
+          have hq : ((d :: r4).dropWhile (· != AT)) = r4.dropWhile (· != AT) := by
+            simp [List.dropWhile_cons, hd]
+          simp only [ptrRes, parsePtr, beq_self_eq_true, ↓reduceIte, hp, hq]
+          have hdw : LF ∉ r4.dropWhile (· != AT) := noLF_dropWhile _ r4 h4
+          match hm : r4.dropWhile (· != AT), hdw with
+          | [], _ => simp [litG]
+          | [a], _ =>
+            by_cases ha : a.toNat = 64 <;> simp [litG, ha]
+          | a :: b :: r5, hdw =>
+            have h5 : LF ∉ r5 := fun hm5 => hdw (by simp [hm5])
+            by_cases ha : a = AT
+            · subst ha
+              by_cases hb : b = SP
+              · subst hb
+                have hSP : SP.toNat = 32 := rfl
+                simp only [litG, hAT, hSP, ↓reduceIte]
+                rw [tag_run _ r5 _ h5]
+                simp only [beq_self_eq_true, Bool.and_self, Bool.true_and, ne_eq, reduceCtorEq,
+                  not_false_eq_true, decide_true, ↓reduceIte, List.cons_ne_nil]
+                have : (SP :: AT :: ((List.takeWhile (fun b => b != AT) r4).reverse ++ [d, AT])).reverse
+                    = AT :: (d :: List.takeWhile (fun x => x != AT) r4) ++ [AT, SP] := by simp
+                rw [this]
+                cases tagRes _ r5 <;> rfl
+              · have hne : ¬ b.toNat = 32 := fun e => hb (UInt8.toNat_inj.mp (by simpa [SP] using e))
+                have : (b == SP) = false := by simpa using hb
+                simp [litG, hAT, hne, this]
+            · have hne : ¬ a.toNat = 64 := fun e => ha (UInt8.toNat_inj.mp (by simpa [AT] using e))
+              have : (a == AT) = false := by simpa using ha
+              simp [litG, hne, this]
+        · -- `@@…`: the group cannot match and `\w+` cannot start at `@`
+          have hd' : d = AT := by simpa using hd
+          subst hd'
+          simp only [afterSpaces, ptrGroup, run, litG, hAT, ↓reduceIte, notAt_fun]
+          have : (AT != AT) = false := by decide
+          simp only [this, Bool.false_eq_true, ↓reduceIte]
+          rw [fallback]
+          simp only [ptrRes, parsePtr, beq_self_eq_true, ↓reduceIte]
+          have e1 : (AT :: r4).takeWhile (· != AT) = [] := by simp [List.takeWhile_cons]
+          have e2 : (AT :: r4).dropWhile (· != AT) = AT :: r4 := by simp [List.dropWhile_cons]
+          rw [e1, e2]
+          cases r4 with
+          | nil => rfl
+          | cons x y => simp
+    · have hne : ¬ c0.toNat = 64 := fun e => h0 (UInt8.toNat_inj.mp (by simpa [AT] using e))
+      have hb : (c0 == AT) = false := by simpa using h0
+      simp only [afterSpaces, ptrGroup, run, litG, hne, ↓reduceIte, ptrRes, parsePtr, hb,
+        Bool.false_eq_true]
+      rw [tag_run acc _ c h]
+
+theorem ptrRes_space (c : Caps) (r : Str) : ptrRes c (SP :: r) = none := by
+  have : (SP == AT) = false := by decide
+  simp [ptrRes, parsePtr, this, tagRes_notWord _ SP r isWord_SP]
+
+/-- what ` +` followed by the rest yields -/
+def spacesRes (c : Caps) (r1 : Str) : Option Caps :=
+  if r1.takeWhile (· == SP) = [] then none else ptrRes c (r1.dropWhile (· == SP))
+
+theorem spaces_run (acc r1 : Str) (c : Caps) (h : LF ∉ r1) :
+    run spacesRe acc r1 c kf = spacesRes c r1 := by
+  cases r1 with
+  | nil => simp [spacesRe, run, spacesRes]
+  | cons b r =>
+    have hr : LF ∉ r := fun hm => h (by simp [hm])
+    simp only [spacesRe, run, space_fun, spacesRes, List.takeWhile_cons, List.dropWhile_cons]
+    by_cases hb : (b == SP) = true
+    · simp only [hb, ↓reduceIte]
+      rw [starG_max (fun b => b == SP) _ (fun acc' b' r' hb' => by
+        have : b' = SP := by simpa using hb'
+        subst this
+        have hlf : LF ∉ (SP :: r') → run afterSpaces acc' (SP :: r') c kf = none := fun hh => by
+          rw [ptr_run acc' _ c hh, ptrRes_space]
+        by_cases hh : LF ∈ r'
+        · -- the pointer stage still fails: the tag cannot start with a space
+          simp [afterSpaces, ptrGroup, run, litG, tagRe, word_fun, isWord_SP]
+          have : ¬ SP.toNat = 64 := by decide
+          simp [this]
+        · exact hlf (fun hm => by
+            rcases List.mem_cons.mp hm with e | e
+            · exact absurd e (by decide)
+            · exact hh e)) r (b :: acc)]
+      rw [ptr_run _ _ c (noLF_dropWhile _ r hr)]
+      simp
+    · simp [hb]
+
+/-- what the whole pattern yields -/
+def lineRes (s : Str) : Option Caps :=
+  if s.takeWhile isDigit = [] then none
+  else spacesRes (Caps.set (fun _ => []) 1 (s.takeWhile isDigit)) (s.dropWhile isDigit)
+
+theorem spacesRes_digit (c : Caps) (b : UInt8) (r : Str) (hb : isDigit b = true) :
+    spacesRes c (b :: r) = none := by
+  have : (b == SP) = false := by
+    cases hbs : b == SP with
+    | false => rfl
+    | true =>
+      have : b = SP := by simpa using hbs
+      subst this; exact absurd hb (by decide)
+  simp [spacesRes, List.takeWhile_cons, this]
+
+theorem spaces_digit_none (acc : Str) (c : Caps) (b : UInt8) (r : Str) (hb : isDigit b = true) :
+    run spacesRe acc (b :: r) c kf = none := by
+  have : (b == SP) = false := by
+    cases hbs : b == SP with
+    | false => rfl
+    | true =>
+      have : b = SP := by simpa using hbs
+      subst this; exact absurd hb (by decide)
+  simp [spacesRe, run, space_fun, this]
+
+theorem find_kf (re : Re) (s : Str) : find re s = run re [] s (fun _ => []) kf := rfl
+
+theorem find_expected (s : Str) (h : LF ∉ s) : find expected s = lineRes s := by
+  rw [find_kf]
+  cases s with
+  | nil => simp [expected, run, lineRes]
+  | cons b r =>
+    have hr : LF ∉ r := fun hm => h (by simp [hm])
+    simp only [expected, run, digit_fun, lineRes, List.takeWhile_cons, List.dropWhile_cons]
+    by_cases hb : isDigit b = true
+    · simp only [hb, ↓reduceIte]
+      rw [starG_max isDigit _ (fun acc' b' r' hb' => by
+        simp only [List.append_nil]
+        exact spaces_digit_none _ _ b' r' hb') r [b]]
+      simp only [List.append_nil]
+      have := spaces_run ((List.takeWhile isDigit r).reverse ++ [b]) (List.dropWhile isDigit r)
+        (Caps.set (fun _ => []) 1 ((List.takeWhile isDigit r).reverse ++ [b]).reverse)
+        (noLF_dropWhile _ r hr)
+      rw [this]
+      simp
+    · simp [hb]
+
+/-! ## from submatches to the fields of a line -/
+
+/-- what `parseLine` (decoder.go) does with the submatches: `indent, _ := strconv.Atoi(parts[1])`,
+    `pointer = parts[2][1 : len(parts[2])-2]` when `parts[2] != ""`, `TagFromString(parts[3])`,
+    `value := parts[4]`.  (`Atoi` saturates at the largest `int`; the model keeps the exact
+    number — see the trusted base of C01–C03.) -/
+def fields (c : Caps) : Line :=
+  ⟨decToNat (c 1), if c 2 = [] then [] else ((c 2).take ((c 2).length - 2)).drop 1, c 3, c 4⟩
+
+theorem ptr_slice (ptr : Str) :
+    ((AT :: ptr ++ [AT, SP]).take ((AT :: ptr ++ [AT, SP]).length - 2)).drop 1 = ptr := by
+  have : (AT :: ptr ++ [AT, SP]).length - 2 = (AT :: ptr).length := by simp
+  rw [this]
+  have : AT :: ptr ++ [AT, SP] = (AT :: ptr) ++ [AT, SP] := rfl
+  rw [this, List.take_left']
+  · rfl
+  · rfl
+
+theorem fields_lineRes (s : Str) : (lineRes s).map fields = parseLine s := by
+  unfold lineRes parseLine spacesRes ptrRes tagRes
+  simp only
+  by_cases h1 : s.takeWhile isDigit = []
+  · simp [h1]
+  · simp only [h1, ↓reduceIte]
+    by_cases h2 : (s.dropWhile isDigit).takeWhile (· == SP) = []
+    · simp [h2]
+    · simp only [h2, ↓reduceIte]
+      cases hp : parsePtr ((s.dropWhile isDigit).dropWhile (· == SP)) with
+      | none => simp
+      | some pr =>
+        obtain ⟨ptr, r⟩ := pr
+        simp only
+        by_cases h3 : r.takeWhile isWord = []
+        · simp [h3]
+        · simp only [h3, ↓reduceIte, Option.map_some]
+          by_cases hptr : ptr = []
+          · subst hptr
+            simp [fields, Caps.set]
+          · simp only [hptr, ↓reduceIte, fields, Caps.set]
+            simp [ptr_slice]
+
 end Gedcom.Regex
